@@ -250,6 +250,48 @@ Definition w_head_state : list (str * list lattr) := [([97], [(3, 3, w_s)]); ([9
 Definition w_first_commit_changes : list (str * list lattr * bool) := [([97], [(4, 4, w_s)], true)].
 Definition w_first_commit_files (p : str) : option N := if str_eqb p [97] then Some 4 else None.
 
+(* ---------- the squash / CI rewrite (rewrite_authorship_after_squash_or_rebase) ----------
+   committed_files = get_committed_files_content(merge commit, changed files): the changed files that
+   exist in the merge commit; merged = merge_attributions_favoring_first(target_va, source_va,
+   committed_files); note = merged.to_authorship_log() with base_commit_sha = merge commit.
+   Contents are abstracted to line counts; `mf p lc` stands for the line attributions that
+   attributions_to_line_attributions computes for file p against its final content (lc lines);
+   `own p` is the line count of the content one of the two inputs remembers for p. *)
+Fixpoint assoc_str {A} (l : list (str * A)) (k : str) : option A :=
+  match l with
+  | [] => None
+  | (k', v) :: r => if str_eqb k' k then Some v else assoc_str r k
+  end.
+
+Definition committed_files (tree : str -> option N) (pathspecs : list str) : list (str * N) :=
+  flat_map (fun p => match tree p with Some lc => [(p, lc)] | None => [] end) pathspecs.
+
+Definition va := list (str * list lattr).
+
+(* merge_attributions_favoring_first, which files come out.  skip_absent is read from the source
+   (GenNotes.gn_merge_skips_absent): `None => continue` for a file that is not in final_state. *)
+Definition merge_favoring_first (skip_absent : bool) (mf : str -> N -> list lattr) (own : str -> option N)
+    (primary secondary : va) (final_state : list (str * N)) : va :=
+  flat_map (fun p =>
+      match assoc_str final_state p with
+      | Some lc => [(p, mf p lc)]
+      | None => if skip_absent then []
+                else match own p with Some lc => [(p, mf p lc)] | None => [] end
+      end)
+    (dedup_first (map fst primary ++ map fst secondary ++ map fst final_state)).
+
+Definition squash_note (mf : str -> N -> list lattr) (own : str -> option N) (tree : str -> option N)
+    (changed : list str) (target source : va) : list fatt :=
+  to_authorship_log
+    (merge_favoring_first gn_merge_skips_absent mf own target source (committed_files tree changed)).
+
+(* witness for the variant that does not skip: the target branch deleted x, the source branch's AI
+   commit appended lines 3-4 to it; the merge commit contains only a *)
+Definition w_sq_tree (p : str) : option N := if str_eqb p [97] then Some 4 else None.
+Definition w_sq_own (p : str) : option N := if str_eqb p [120] then Some 4 else if str_eqb p [97] then Some 4 else None.
+Definition w_sq_mf (p : str) (lc : N) : list lattr := if str_eqb p [120] then [(3, 4, w_s)] else [(4, 4, w_s)].
+Definition w_sq_source : va := [([97], [(4, 4, w_s)]); ([120], [(3, 4, w_s)])].
+
 (* ---------- witnesses ---------- *)
 (* a note whose attestation section names the file  DQ base_commit_sha DQ : DQ x  (DQ = the double quote; a legal file name) *)
 Definition w_remap_note : str :=
